@@ -89,6 +89,11 @@ mut("exit-wakes-waiters-with-stopped", PR, "    wake_process_waiters(&(pp->waite
 mut("stop-skips-drop-resources", PR, "    cmi_process_cancel_awaiteds(tgt);\n    cmi_process_drop_resources(tgt);\n    wake_process_waiters(&(tgt->waiters), CMB_PROCESS_STOPPED);", "    cmi_process_cancel_awaiteds(tgt);\n    wake_process_waiters(&(tgt->waiters), CMB_PROCESS_STOPPED);", ["C09"])
 mut("stop-self-no-cleanup", PR, "    /* Clean up unfinished business */\n    cmi_process_cancel_awaiteds(tgt);\n    cmi_process_drop_resources(tgt);\n    wake_process_waiters(&(tgt->waiters), CMB_PROCESS_STOPPED);", "    /* Clean up unfinished business */\n    if (tgt != cmb_process_current()) {\n    cmi_process_cancel_awaiteds(tgt);\n    cmi_process_drop_resources(tgt);\n    wake_process_waiters(&(tgt->waiters), CMB_PROCESS_STOPPED);\n    }", ["C09"])
 
+mut("unregister-removes-first-observer", RG, "        if (op->observer == obs) {\n            cmi_slist_pop(ohead);", "        if (op->observer != NULL) {\n            cmi_slist_pop(ohead);", ["C13"])
+mut("unregister-leaves-observer", RG, "        if (op->observer == obs) {\n            cmi_slist_pop(ohead);\n            cmi_mempool_free(&observer_tagpool, op);\n            return true;", "        if (op->observer == obs) {\n            return true;", ["C13"])
+mut("unregister-returns-false", RG, "            cmi_mempool_free(&observer_tagpool, op);\n            return true;", "            cmi_mempool_free(&observer_tagpool, op);\n            return false;", ["C13"])
+mut("timers-clear-stops-at-non-timer", PR, "            /* Skip to next */\n            awaits = awaits->next;", "            /* Skip to next */\n            break;", ["C04"])
+mut("timers-clear-drops-first-awaitable", PR, "        if (pa->type == CMI_PROCESS_AWAITABLE_TIME) {\n            /* Recycle the tag */\n            cmi_slist_pop(awaits);", "        if (pa->type == CMI_PROCESS_AWAITABLE_TIME) {\n            /* Recycle the tag */\n            cmi_slist_pop(&(pp->awaits));", ["C04"])
 # --- C03 ------------------------------------------------------------------------
 ASM = "src/port/x86-64/linux/cmi_coroutine_context.asm"
 CTX = "src/port/x86-64/linux/cmi_coroutine_context.c"
